@@ -26,6 +26,7 @@ TInit ==
   /\ cache = [n \in Name |-> NotCached]
   /\ clock = 0 /\ nextVer = 2
   /\ zlW = None /\ zlR = {} /\ nlW = None
+  /\ names = {} /\ namesExp = -1
   /\ pc = [t \in Thread |-> "idle"] /\ arg = [t \in Thread |-> CHOOSE n \in Name : TRUE]
   /\ ret = [t \in Thread |-> 0] /\ ops = 0
   /\ seen = [t \in Thread |-> {}] /\ how = [t \in Thread |-> "none"]
@@ -57,9 +58,21 @@ TRet ==
 TNamesReset ==
   /\ Is("names_reset") /\ pc[Ev.t] = "idle" /\ CanWrite(zlW, zlR) /\ nlW = None
   /\ zlW' = Ev.t /\ pc' = [pc EXCEPT ![Ev.t] = "reset_zones"] /\ ops' = ops + 1
+  /\ names' = {} /\ namesExp' = -1
   /\ UNCHANGED <<file, cache, clock, nextVer, zlR, nlW, arg, ret, seen, how>>
   /\ Adv /\ UNCHANGED <<pend, win>>
 TReset == Is("reset") /\ ResetZones(Ev.t) /\ Adv /\ UNCHANGED <<pend, win>>
+\* available(): begin / outcome events of its one critical section (the outcome lists the names returned)
+TAvailBegin ==
+  /\ Is("names_avail_begin") /\ pc[Ev.t] = "idle" /\ win[Ev.t] = {} /\ nlW = None
+  /\ win' = [win EXCEPT ![Ev.t] = {file}]
+  /\ Adv /\ UNCHANGED <<vars, pend>>
+TAvail ==
+  /\ Is("names_avail") /\ win[Ev.t] # {} /\ pc[Ev.t] = "idle" /\ (Ev.refreshed = 1) = Expired(namesExp)
+  /\ \E f \in win[Ev.t] : AvailWith(Ev.t, f)
+  /\ names' = {n \in Name : Ev.names[n] = 1}
+  /\ win' = [win EXCEPT ![Ev.t] = {}]
+  /\ Adv /\ UNCHANGED pend
 
 TEnvStart == /\ Is("env_start") /\ pend' = pend \cup {<<Ev.kind, Ev.mt, Ev.z>>} /\ Adv /\ UNCHANGED <<vars, win>>
 TEnvEnd == /\ Is("env_end") /\ <<Ev.kind, Ev.mt, Ev.z>> \notin pend /\ Adv /\ UNCHANGED <<vars, pend, win>>
@@ -71,11 +84,11 @@ Apply(p) ==
      /\ win' = [t \in Thread |-> IF win[t] # {} THEN win[t] \cup {f} ELSE win[t]]
      /\ seen' = Note(f)
   /\ nextVer' = IF p[2] >= nextVer THEN p[2] + 1 ELSE nextVer
-  /\ UNCHANGED <<cache, clock, zlW, zlR, nlW, pc, arg, ret, ops, how, l>>
+  /\ UNCHANGED <<cache, clock, zlW, zlR, nlW, names, namesExp, pc, arg, ret, ops, how, l>>
 TTick == /\ Is("tick") /\ clock' = clock + 1 /\ Adv
-         /\ UNCHANGED <<file, cache, nextVer, zlW, zlR, nlW, pc, arg, ret, ops, seen, how, pend, win>>
+         /\ UNCHANGED <<file, cache, nextVer, zlW, zlR, nlW, names, namesExp, pc, arg, ret, ops, seen, how, pend, win>>
 
-TNext == TStart \/ TFast \/ TSlowBegin \/ TSlow \/ TRet \/ TNamesReset \/ TReset
+TNext == TStart \/ TFast \/ TSlowBegin \/ TSlow \/ TRet \/ TNamesReset \/ TReset \/ TAvailBegin \/ TAvail
          \/ TEnvStart \/ TEnvEnd \/ TTick \/ (\E p \in pend : Apply(p))
 TSpec == TInit /\ [][TNext]_tvars
 
